@@ -1,7 +1,8 @@
 (* C08 model driver.
    input : "<mode> <entry> <ca> <hs_ok> <tls_err> <stream> <after>"
-           mode T|N|A|R|S<digits>, entry starttls|legacy, ca ca|noca|badca|cadir, hs_ok 0|1,
-           stream = string of 0/1 (OpenSSL's preverify_ok per invocation, as observed) or -, after close|silent
+           mode T|N|A|R|S<digits>|P<role>|Q<role>, entry starttls|legacy[+m], ca ca|noca|badca|cadir, hs_ok 0|1,
+           stream = comma separated <preverify_ok><role of the certificate the verdict is about> per invocation, as
+           observed (role 0 leaf, 1 intermediate, 2 root), or -, after close|silent
    output: the fields of the C driver's line that the model predicts, plus pol=<policy_ok of the spec on this run> *)
 let tok = function WHeader -> "H" | WStartTls -> "S" | WAuth -> "A" | WBind -> "B" | WClose -> "X"
 let b2s b = if b then "1" else "0"
@@ -15,10 +16,15 @@ let () = iter_lines (fun line ->
       | 'A' -> CbScript ([], z_of_int 1)
       | 'R' -> CbScript ([], z_of_int 0)
       | 'S' -> CbScript (List.init (String.length mode - 1) (fun i -> z_of_int (Char.code mode.[i+1] - 48)), z_of_int 0)
+      | 'P' -> CbByCert ([(z_of_int (Char.code mode.[1] - 48), z_of_int 1)], z_of_int 0)
+      | 'Q' -> CbByCert ([(z_of_int (Char.code mode.[1] - 48), z_of_int 0)], z_of_int 1)
       | _ -> CbNone in
     let sc = { s_trust = (mode.[0] = 'T'); s_cafile = (ca = "ca" || ca = "badca"); s_capath = (ca = "cadir"); s_cb = cb;
-               s_entry = (if entry = "legacy" then ELegacy else EStartTls); s_ssl_ok = true; s_ca_ok = (ca <> "badca");
-               s_stream = (if stream = "-" then [] else List.init (String.length stream) (fun i -> z_of_int (Char.code stream.[i] - 48)));
+               s_entry = (if String.length entry >= 6 && String.sub entry 0 6 = "legacy" then ELegacy else EStartTls);
+               s_mandatory = (String.length entry > 2 && String.sub entry (String.length entry - 2) 2 = "+m");
+               s_ssl_ok = true; s_ca_ok = (ca <> "badca");
+               s_stream = (if stream = "-" then [] else
+                 List.map (fun t -> (z_of_int (Char.code t.[0] - 48), z_of_int (Char.code t.[1] - 48))) (String.split_on_char ',' stream));
                s_hs_ok = (hs = "1"); s_tls_err = z_of_int (int_of_string te);
                s_after = (if after = "silent" then PeerSilent else PeerCloses) } in
     let (c, tr) = run sc in
@@ -27,6 +33,7 @@ let () = iter_lines (fun line ->
               | _ -> acc) "none" tr in
     let v = String.concat "," (List.filter_map (function OVerify (p, r) -> Some (Printf.sprintf "%d%d" (int_of_z p) (int_of_z r)) | _ -> None) tr) in
     let cbn = List.length (List.filter (function OCertfail _ -> true | _ -> false) tr) in
+    let shown = String.concat "" (List.filter_map (function OCertfail (_, c, _) -> Some (string_of_int (int_of_z c)) | _ -> None) tr) in
     let ts = List.length (List.filter (function OTlsStart _ -> true | _ -> false) tr) in
     let ev = String.concat "," (List.filter_map (function OConnect s -> Some ("C" ^ b2s s) | ODisconnect (s, e) -> Some ("D" ^ b2s s ^ "/" ^ err e) | _ -> None) tr) in
     let polls = List.filter_map (function OIs s -> Some s | _ -> None) tr in
@@ -39,7 +46,7 @@ let () = iter_lines (fun line ->
       | _ -> ()) tr;
     let nd = List.length (List.filter (function ODisconnect _ -> true | _ -> false) tr) in
     let crash = List.exists (function OCrash -> true | _ -> false) tr in
-    Printf.sprintf "cfg=%s v=%s cbn=%d ts=%d ev=%s sec=%s/%s cw=%s|%s t=%s nd=%d crash=%s pol=%s"
-      cfg (dash v) cbn ts (dash ev) (b2s secmax) (b2s secfin) (dash (Buffer.contents cw0)) (dash (Buffer.contents cw1))
+    Printf.sprintf "cfg=%s v=%s cbn=%d sh=%s ts=%d ev=%s sec=%s/%s cw=%s|%s t=%s nd=%d crash=%s pol=%s"
+      cfg (dash v) cbn (dash shown) ts (dash ev) (b2s secmax) (b2s secfin) (dash (Buffer.contents cw0)) (dash (Buffer.contents cw1))
       (dash (Buffer.contents t)) nd (b2s crash) (b2s (policy_ok sc))
   | _ -> "bad-input")
